@@ -600,10 +600,12 @@ func run[V any](r *engine.Rec, c *cfg[V], maxN int) {
 			if !exp.mustPanic && !exp.mayPanic {
 				return viol(class+" panics on a valid call", o.Value)
 			}
-			if after != before {
-				return viol(class+" panics but changes the sequence", fmt.Sprintf("before %s\nafter  %s", before, after))
+			// "leaves the sequence unchanged": what a caller can observe, not the private representation
+			if got := obj.AsArray(); !eqSlices(got, m) || obj.GetSize() != len(m) {
+				return viol(class+" panics but changes the sequence", fmt.Sprintf("before %v\nafter  %v", m, got))
 			}
-			return seqx.Step{Key: after, Size: n, Expand: false}
+			// private state that differs (and is not observable yet) is a new state of the search
+			return seqx.Step{Key: ctorKey(path[0]) + after, Size: n, Expand: after != before}
 		}
 		r.Outcome("return")
 		if exp.mustPanic {
@@ -664,13 +666,8 @@ func run[V any](r *engine.Rec, c *cfg[V], maxN int) {
 				return viol("IsEmpty wrong", fmt.Sprint(res, len(m)))
 			}
 		}
-		// queries must not change the private state
-		switch op.K {
-		case "GetValue", "GetValues", "GetIndex", "ContainsValue", "ContainsAny", "ContainsAll", "AsArray", "Iterate", "GetSize", "IsEmpty":
-			if after != before {
-				return viol(class+" (a query) changes the private state", fmt.Sprintf("before %s\nafter  %s", before, after))
-			}
-		}
+		// (a query may change private state - a cache, a counter - as long as no observer can tell:
+		// the observers below compare with the model, and a changed private state is a new state of the search)
 		// all observers agree with the new state
 		ns := exp.state
 		if obj.GetSize() != len(ns) || obj.IsEmpty() != (len(ns) == 0) {
